@@ -43,18 +43,40 @@ func sign1Shape(b []byte) (bool, string) {
 	if perr != nil || len(prest) != 0 {
 		return false, "payload is not one well-formed CBOR item"
 	}
-	for pn.Kind == kTag {
-		pn = pn.Kids[0] // tagged claims maps: left open (C04)
-	}
-	if pn.Kind != kMap {
+	if pn.Kind != kMap { // a tag around a map is not a map
 		return false, "payload is not a claims map"
 	}
 	return true, ""
 }
 
 func runC20(r *Run, rng *Rng, thorough bool) {
+	// three base tokens: profile 2 (explicit profile claim), profile 1 with and without the profile claim
+	var bases []*ClaimsDesc
+	for len(bases) < 3 {
+		d := c19Claims(rng, true)
+		switch len(bases) {
+		case 0:
+			if d.P != 2 {
+				continue
+			}
+		case 1:
+			if d.P != 1 || d.Prof == nil {
+				continue
+			}
+		default:
+			if d.P != 1 || d.Prof != nil {
+				continue
+			}
+		}
+		bases = append(bases, d)
+	}
+	for i, d := range bases {
+		runC20On(r, rng, thorough, d, i == 0)
+	}
+}
+
+func runC20On(r *Run, rng *Rng, thorough bool, d *ClaimsDesc, first bool) {
 	ks := keys()
-	d := c19Claims(rng, true)
 	tok, _, _ := signedToken(d, ks[0], ks[0].algs[0])
 	prot, payload, sig, _ := envelopeParts(tok)
 	try := func(class string, b []byte) {
@@ -126,6 +148,11 @@ func runC20(r *Run, rng *Rng, thorough bool) {
 		nBstr(nArr().Bytes()), nBstr([]byte{0xf6}), nBstr([]byte{0xf7}), nBstr(nUint(1).Bytes()), nBstr(nTstr("x").Bytes()),
 		nBstr(nBstr(payload).Bytes()), nBstr(nBstr(nBstr(payload).Bytes()).Bytes()), nBstr(nTag(55799, mustParse(payload)).Bytes()),
 		nBstr(append(append([]byte{}, payload...), 0)), nBstr(payload[:len(payload)-1]), nBstr(tok))
+	for _, t := range []uint64{0, 1, 2, 18, 24, 32, 61, 399, 601, 1 << 40} {
+		repl = append(repl, nBstr(nTag(t, mustParse(payload)).Bytes()))
+	}
+	repl = append(repl, nBstr(nTag(55799, nTag(61, mustParse(payload))).Bytes()), nBstr(nArr(mustParse(payload)).Bytes()),
+		nBstr(nTag(24, nBstr(payload)).Bytes()))
 	for i := 0; i < 4; i++ {
 		for _, w := range repl {
 			a := body()
@@ -175,9 +202,12 @@ func runC20(r *Run, rng *Rng, thorough bool) {
 		}
 	}
 	// random mutations of the good token
-	nMut := 3000
+	nMut := 1500
 	if thorough {
-		nMut = 300000
+		nMut = 100000
+	}
+	if !first {
+		nMut /= 3
 	}
 	for i := 0; i < nMut; i++ {
 		v := append([]byte{}, tok...)
